@@ -459,12 +459,21 @@ def _color_refine(
     atom_hash = next(sm_generator)
     n_atom_classes = np.unique(atom_hash).shape[0]
 
+    # The bond stereo contribution is computed from the colours of the
+    # previous round, it can not influence the first round.
+    lagging_bond_stereo = bool(getattr(graph, "bond_stereo", None)) or bool(
+        getattr(graph, "bond_stereo_changes", None)
+    )
+
     counter = (
         itertools.count(1, 1) if max_iter is None else range(max_iter + 1)
     )
-    for _ in counter:
+    for iteration in counter:
         atom_hash = next(sm_generator)
         new_n_classes = np.unique(atom_hash).shape[0]
+        if lagging_bond_stereo and iteration == 1 and max_iter is None:
+            n_atom_classes = new_n_classes
+            continue
         if new_n_classes == n_atom_classes:
             break
         elif new_n_classes == n_atoms:
